@@ -92,4 +92,4 @@ def parts(tier):
                 if f.get("status") == "known"})
     quick = tier == "quick"
     return [HypPart(name="compile", check=check, strategy=_case,
-                    examples=110 if quick else 2500, seconds=50 if quick else 700)]
+                    examples=110 if quick else 2500, seconds=50 if quick else 600)]
